@@ -252,6 +252,40 @@ theorem C06_stored (σ : SSchema) (hσ : σ.WF) (sk : ResSke) (r : AnyRes)
     rw [e3 f hf]
     exact r3 f hna hnr (namesOk_mem h3 hf).1
 
+/-! ### The per-kind parse calls of `Attr.unmarshalToType`, read from the source (T1) -/
+
+/-- the name of the kind's constant in type.go -/
+def Kind.constName : Kind → String
+  | .string => "AttrTypeString" | .int => "AttrTypeInt" | .int8 => "AttrTypeInt8" | .int16 => "AttrTypeInt16"
+  | .int32 => "AttrTypeInt32" | .int64 => "AttrTypeInt64" | .uint => "AttrTypeUint" | .uint8 => "AttrTypeUint8"
+  | .uint16 => "AttrTypeUint16" | .uint32 => "AttrTypeUint32" | .uint64 => "AttrTypeUint64" | .bool => "AttrTypeBool"
+  | .time => "AttrTypeTime" | .bytes => "AttrTypeBytes"
+
+/-- What the model of `unmarshalToType` assumes the clause of a kind does: which parser it
+calls, with which bit size, and which narrowing conversion it applies - in terms of the
+model's own `Kind.isSigned`, `Kind.isUnsigned` and `Kind.bits` (`strconv.Atoi` is
+`ParseInt(s, 10, 0)`: the 64 bits of `int`). -/
+def C06_expectedParse (k : Kind) : String × Nat × List String :=
+  if k.isSigned then
+    (if k.bits = 64 then ("strconv.Atoi", 0, if k = .int then [] else [k.goName])
+     else ("strconv.ParseInt", k.bits, [k.goName]))
+  else if k.isUnsigned then ("strconv.ParseUint", k.bits, if k = .uint64 then [] else [k.goName])
+  else if k = .bool then ("", 0, [])
+  else ("json.Unmarshal", 0, [])
+
+/-- The clause of every kind in the CURRENT source of `Attr.unmarshalToType` (regenerated
+`Facts.unmarshalParse`) calls the parser, with the bit size, and applies the conversion the
+model assumes - for all fourteen kinds, so `parseInt k.bits` / `parseUint k.bits` in the
+model are the source's `ParseInt(…, 10, bits)` / `ParseUint(…, 10, bits)`. -/
+theorem C06_parse_facts (k : Kind) :
+    Facts.unmarshalParse.lookup k.constName = some (C06_expectedParse k) := by
+  cases k <;> decide
+
+/-- and the switch has a clause for each of the fourteen kinds (plus `default`) -/
+theorem C06_parse_cases :
+    Facts.unmarshalToTypeCases = Kind.all.map Kind.constName ∧
+    Facts.unmarshalParse.map (·.1) = Kind.all.map Kind.constName ++ ["default"] := by decide
+
 /-! ### Re-marshaling the linkage, and the known finding C06-toone-empty-id -/
 
 /-- An accepted, present, non-null to-one linkage whose id is not empty re-marshals (data
@@ -338,6 +372,8 @@ open Jsonapi
 #print axioms C06_rel_toOne
 #print axioms C06_rel_toMany
 #print axioms C06_stored
+#print axioms C06_parse_facts
+#print axioms C06_parse_cases
 #print axioms C06_remarshal_toOne
 #print axioms C06_remarshal_toMany
 #print axioms C06_known_toOne_empty_id
